@@ -40,7 +40,7 @@ type TypeRef struct {
 	NonNull bool
 }
 
-func Named(n string) *TypeRef   { return &TypeRef{Name: n} }
+func Named(n string) *TypeRef      { return &TypeRef{Name: n} }
 func NonNullT(t *TypeRef) *TypeRef { c := *t; c.NonNull = true; return &c }
 func NullableT(t *TypeRef) *TypeRef {
 	c := *t
@@ -177,12 +177,12 @@ type TypeDef struct {
 	NoBase      bool // spec-invalid option: only extension chunks, no base definition
 
 	// indexes (finalize)
-	idx      int
-	poss     []uint64   // possible object types as a bitset over Schema.objects
-	overlap  []*TypeDef // composite types whose possible types intersect this one's
-	intro    bool       // introspection type (__Schema, __Type, …)
-	height   int        // input objects: minimal nesting depth of a literal (see computeInputHeights)
-	term     *FieldDef  // @oneOf input objects: the field whose value nests least
+	idx     int
+	poss    []uint64   // possible object types as a bitset over Schema.objects
+	overlap []*TypeDef // composite types whose possible types intersect this one's
+	intro   bool       // introspection type (__Schema, __Type, …)
+	height  int        // input objects: minimal nesting depth of a literal (see computeInputHeights)
+	term    *FieldDef  // @oneOf input objects: the field whose value nests least
 }
 
 func (t *TypeDef) Field(name string) *FieldDef {
@@ -194,10 +194,12 @@ func (t *TypeDef) Field(name string) *FieldDef {
 	return nil
 }
 
-func (t *TypeDef) IsComposite() bool { return t.Kind == Object || t.Kind == Interface || t.Kind == Union }
-func (t *TypeDef) IsLeaf() bool      { return t.Kind == Scalar || t.Kind == Enum }
-func (t *TypeDef) IsInput() bool     { return t.Kind == Scalar || t.Kind == Enum || t.Kind == InputObject }
-func (t *TypeDef) IsOutput() bool    { return t.Kind != InputObject }
+func (t *TypeDef) IsComposite() bool {
+	return t.Kind == Object || t.Kind == Interface || t.Kind == Union
+}
+func (t *TypeDef) IsLeaf() bool   { return t.Kind == Scalar || t.Kind == Enum }
+func (t *TypeDef) IsInput() bool  { return t.Kind == Scalar || t.Kind == Enum || t.Kind == InputObject }
+func (t *TypeDef) IsOutput() bool { return t.Kind != InputObject }
 func (t *TypeDef) Implements(i string) bool {
 	for _, x := range t.Interfaces {
 		if x.Name == i {
@@ -265,6 +267,9 @@ type Schema struct {
 	objects      []*TypeDef // every object type incl. introspection ones (bit positions of poss)
 	inputs       []*TypeDef // all input types incl. built-in scalars
 	dirsAt       map[string][]*DirectiveDef
+	introFields  []*FieldDef
+	sorted       []*TypeDef
+	blind        *blindGen // cached name tables of GenBlindDocument
 	finalized    bool
 }
 
@@ -351,7 +356,9 @@ func preludeTypes() []*TypeDef {
 	nn := func(t *TypeRef) *TypeRef { return NonNullT(t) }
 	n := Named
 	l := ListOf
-	f := func(name string, t *TypeRef, args ...*ArgDef) *FieldDef { return &FieldDef{Name: name, Type: t, Args: args} }
+	f := func(name string, t *TypeRef, args ...*ArgDef) *FieldDef {
+		return &FieldDef{Name: name, Type: t, Args: args}
+	}
 	incDep := func() *ArgDef {
 		return &ArgDef{Name: "includeDeprecated", Type: n("Boolean"), Default: "false", HasDefault: true}
 	}
@@ -498,6 +505,9 @@ func (s *Schema) finalize() {
 			}
 		}
 	}
+	s.introFields = nil
+	s.sorted = nil
+	s.blind = nil
 	s.computeInputHeights()
 	s.dirByName = map[string]*DirectiveDef{}
 	s.dirsAt = map[string][]*DirectiveDef{}
@@ -522,7 +532,18 @@ func (s *Schema) finalize() {
 		}
 	}
 	s.finalized = true
+	// the lazily built caches are filled here, so that a finalized schema is read-only and can be
+	// shared by concurrent generators
+	s.introField("__schema")
+	s.byNameSorted()
+	b := &blindGen{s: s}
+	b.collect()
+	s.blind = b
 }
+
+// Finalize (re)builds the indexes after a structural change. GenSchema returns a finalized
+// schema; a finalized schema is never written to by the generators.
+func (s *Schema) Finalize() { s.finalize() }
 
 func shapeKey(t *TypeRef, def *TypeDef) string {
 	var sb strings.Builder
